@@ -50,12 +50,16 @@ TRUSTED = [
     '{"s": "SELF"}; World.pkey builds Key.SELF / the str, the driver PKey.self / PKey.str "SELF"; `_is_key` is written out in '
     'Model/TreeKey.lean (Python types of key objects, isinstance along Reserved<str and Index<int, == on key objects) and proved equal to the '
     'pattern matching of Model/Tree.lean (C18_reserved_vs_plain_model); modelled-not-verified: Reserved subclasses str with inherited __eq__/__hash__',
+    'a mapping key / path element that is some OTHER hashable object — a Key instance (a path used as a key: dict(view.items())), a tuple, a frozenset — '
+    'is the opaque atom {"o": n} on the wire, DKey.obj n / PKey.obj n in the model (wp-SC18c): ONE key, compared by ==; modelled-not-verified: these '
+    'objects are hashable, pairwise unequal in a case, `list[obj]` raises TypeError like `list[str]`; what is INSIDE a Key object is not modelled',
 ]
 ASSUMPTIONS = [
     'leaves are int/str/None; ndarrays are int64, 1-D to 3-D, C-contiguous (owning arrays and views of them); dict keys are '
     'str/int/Index/Literal objects (an Index and the equal int never in one dict; str keys of ANY spelling, the spellings of the reserved keys included; '
     'never a Reserved OBJECT, a bool or a float as a dict key of the input: 1 == True == 1.0 collide by value like Index(1) == 1 and are not modelled); '
-    'the view is built without key_paths',
+    'the view is built without key_paths; Key-object / tuple / frozenset dict keys come from a fixed pool of 11 pairwise unequal objects (a Key and the EQUAL '
+    'plain tuple are never both used), are never passed bare (a bare Key is a path, a bare tuple a multi-key) and never meet an ndarray (`arr[()]`)',
     'no cyclic input data (in-place sets never store an ancestor); ndarray elements are assigned ints only where the get/set law is claimed',
 ]
 RULE = ('heaps of <= ~25 cells (trees of depth <= 4 of dict/list/tuple with int/str/None/ndarray leaves, ~15% aliased '
@@ -83,6 +87,13 @@ RULE = ('heaps of <= ~25 cells (trees of depth <= 4 of dict/list/tuple with int/
         'items of the result / the same path with the RESERVED key swapped in / fresh paths through the spellings); the random arm again with 60% of the dicts keyed '
         'from the pool and 12% of the paths with one plain<->reserved swap. ENFORCED coverage (exit 2 otherwise): each of get / multi-key get / copying set / multi-key set / '
         "copy_and_update / in-place set / items / apply SUCCEEDED on an input root through a plain 'SELF' and through a plain 'SKIP' dict key at depth 0, 1 and >= 2; "
+        '(d) SC18c, mapping KEYS that are path-like OBJECTS (Key instances incl. Key() and a Key holding a Key, tuples, a frozenset; wire {"o": n}): fixed flattened '
+        "trees ({Key().a.b: 1, 'a': {'b': 2}} in both orders, dict(view.items()) shapes, below lists / tuples) with items / apply and every path of length <= 2 over key "
+        'objects and their flattened elements (copying set + read back + items + apply, read + in-place set + items); a directed arm cycling operation kind x class '
+        '(Key / tuple) x depth 0..3 (70%: the nested path the key SPELLS is a sibling; follow-ups: read-back, items / apply of the result, the flattened spelling read / '
+        'set, fresh paths through key objects); the random arm with 60% of the dicts holding such keys. ENFORCED coverage (exit 2 otherwise, only for a run without '
+        'violations): each of the 8 operation kinds SUCCEEDED through a Key-object key and through a tuple key at depth 0, 1 and >= 2; items and apply on a Key-object '
+        'key next to the nested path it spells; '
         'non-trivial = at least one successful copying set/update/apply on a container root of depth >= 2')
 
 
